@@ -9,3 +9,40 @@ pub fn dur_of_ns(ns: u128) -> Duration {
 pub fn guarded<F: FnOnce() -> String>(f: F) -> Result<String, ()> {
     std::panic::catch_unwind(std::panic::AssertUnwindSafe(f)).map_err(|_| ())
 }
+
+use std::sync::Arc;
+use std::sync::atomic::{AtomicUsize, Ordering};
+use std::task::{Wake, Waker};
+
+/// A waker that counts how often it was woken.
+pub struct CountingWaker(pub AtomicUsize);
+
+impl Wake for CountingWaker {
+    fn wake(self: Arc<Self>) {
+        self.0.fetch_add(1, Ordering::SeqCst);
+    }
+    fn wake_by_ref(self: &Arc<Self>) {
+        self.0.fetch_add(1, Ordering::SeqCst);
+    }
+}
+
+pub fn counting_waker() -> (Arc<CountingWaker>, Waker) {
+    let c = Arc::new(CountingWaker(AtomicUsize::new(0)));
+    let w = Waker::from(c.clone());
+    (c, w)
+}
+
+impl CountingWaker {
+    pub fn take(&self) -> usize {
+        self.0.swap(0, Ordering::SeqCst)
+    }
+}
+
+/// Position-coded payload: byte j = (start + j) mod 251.
+pub fn pattern(start: usize, len: usize) -> Vec<u8> {
+    (0..len).map(|j| ((start + j) % 251) as u8).collect()
+}
+
+pub fn bytes_dot(b: &[u8]) -> String {
+    b.iter().map(|x| x.to_string()).collect::<Vec<_>>().join(".")
+}
